@@ -53,7 +53,7 @@ def _subsets(n, all_subsets):
            assumes=["the start grid points do not overlap supplied residues (start grid is placed away from the sentinels)"],
            outside=["schedules with more interposed placement calls than `calls`", "graphs outside the shape catalogue"],
            must_cover=["rewound", "abandoned", "finished", "retry_after_abandon", "tree cached", "trees consolidated",
-                       "two copies of one type with different supplied residues"],
+                       "two copies of one type with different supplied residues", "root chosen before building"],
            cfg={"path_timeout_s": 20},
            bounds={"quick": dict(shapes=Q_SHAPES, calls=7, nrewind=(2, 4), rw_maxiter=(2,), all_subsets=False, attempts=1),
                    "thorough": dict(shapes=T_SHAPES[:8] + ["path12"], calls=9, nrewind=(2, 5), rw_maxiter=(2, 3), all_subsets=False, attempts=2)},
@@ -67,7 +67,10 @@ def rewind(sx, B):
     n, _ = SHAPES[shape]
     given_mask = sx.sel("given", _subsets(n, B["all_subsets"]))
     rw_maxiter = sx.sel("rw_maxiter", B["rw_maxiter"])
-    use_start = sx.sel("start_node", [False, True])
+    use_start = sx.sel("start_node", [False, True, "root chosen by a persistence restraint"])
+    persistence_root = use_start == "root chosen by a persistence restraint"
+    if persistence_root:
+        use_start = False
     cached = sx.sel("search_tree_cached_before_building", [False, True])
     nrewind = sx.int("nrewind", *B["nrewind"])
     ncalls = B["calls"]
@@ -100,6 +103,12 @@ def rewind(sx, B):
         start_dict = _gc.find_starting_node_from_spec(top, ["M1-A#%d" % n])
         sx.claim(start_dict[1] == n - 1 and start_dict[0] == (n - 1 if twin else None) and start_dict[2] is None,
                  "the start specification selects the named residue")
+    if persistence_root:
+        # what sample_end_to_end_distances does for a [ persistence_length ] entry that starts at the last residue of the shape:
+        # it roots the search tree there (and walks it) before building; no start node is handed to the builder
+        m1.root = n - 1
+        list(m1.search_tree.edges)
+        sx.cover("root chosen before building")
     if cached:
         # as happens when restraints are set up before building (set_restraints / end-to-end sampling walk the search tree)
         list(m1.search_tree.edges)
